@@ -179,7 +179,9 @@ def run(h, r):
     else:
         # greedy trivial-dead removal runs to a fixpoint as well (recursive walker): nothing trivially dead remains
         live2, _ = reference_live(module, False)
-        remaining_dead = [o.name for o in module.walk() if id(o) not in live2
+        # trivially dead = removable class AND no used result (an effectful / unregistered op nested in a dead
+        # but cyclically used -- hence not trivially dead -- parent is not itself trivially dead)
+        remaining_dead = [o.name for o in module.walk() if id(o) not in live2 and o.name in REMOVABLE
                           and all(x.first_use is None for x in o.results)]
         if remaining_dead and entry == "greedy":
             h.mismatch({"check": "trivially_dead_remains", "entry": entry, "op": sorted(remaining_dead)[0]}, r,
